@@ -678,6 +678,13 @@ func (e *Env) callExpr(x ECall) Term {
 		argn(1)
 		key := exprString(x.Args[0])
 		return fv.ghostTerm(e.st, "log."+key+".n", SMath)
+	case "callseq":
+		// callseq(K, i): position of the i-th logged call of K in the global order of logged calls
+		argn(2)
+		key := exprString(x.Args[0])
+		i := e.coerce(e.eval(x.Args[1]), SMath)
+		h := fv.heapTerm(e.st, "log."+key+".s", SMath)
+		return Term{S: app("select", h.S, i.S), Sort: SMath}
 	case "callarg", "callres":
 		argn(3)
 		key := exprString(x.Args[0])
